@@ -570,18 +570,15 @@ int sbdf_tm_write(FILE* out, sbdf_tablemetadata const* in)
 			if (array_size == array_capacity)
 			{
 				array_capacity = sbdf_calculate_array_capacity(1 + array_size);
-				if (array)
 				{
-					array = realloc((struct metadata_sort*)array, sizeof(struct metadata_sort) * array_capacity);
-				}
-				else
-				{
-					array = malloc(sizeof(struct metadata_sort) * array_capacity);
-				}
-
-				if (!array)
-				{
-					return SBDF_ERROR_OUT_OF_MEMORY;
+					/* realloc(0, n) allocates; a failed realloc leaves the old block for the cleanup */
+					struct metadata_sort* grown = realloc((struct metadata_sort*)array, sizeof(struct metadata_sort) * array_capacity);
+					if (!grown)
+					{
+						error = SBDF_ERROR_OUT_OF_MEMORY;
+						goto end;
+					}
+					array = grown;
 				}
 			}
 
